@@ -318,10 +318,11 @@ def js_judge(schema, values):
     return out
 
 
-def judge_batch(chk, drv, items):
-    """items: [(schema, [values])] -> [[bool]] by the Lean reference semantics, cross-checked with jsonschema."""
+def judge_batch(chk, drv, items, descs=None):
+    """items: [(schema, [values])] -> [[bool]] by the Lean reference semantics, cross-checked with jsonschema.
+    descs (optional, parallel to items): [[class token or None]] -> the answers become [[valid, violates_as_described]]."""
     reqs = []
-    for schema, values in items:
+    for idx, (schema, values) in enumerate(items):
         env = {"oas": "none", "re": [], "fmt": []}
         tbl = []
         for v in values:
@@ -336,8 +337,15 @@ def judge_batch(chk, drv, items):
             env["fmt"] = [[f, enc(x), b] for f, x, b in fmt_table(schema, values)]
         except Unmodelled:
             env["fmt"] = []
-        reqs.append(("judge", {"env": env, "schema": enc(schema), "values": [enc(v) for v in values]}))
+        a = {"env": env, "schema": enc(schema), "values": [enc(v) for v in values]}
+        if descs is not None:
+            a["descs"] = descs[idx]
+        reqs.append(("judge", a))
     outs = drv.batch(reqs)
+    described = None
+    if descs is not None:
+        described = [[x[1] for x in o] if isinstance(o, list) else o for o in outs]
+        outs = [[x[0] for x in o] if isinstance(o, list) else o for o in outs]
     for (schema, values), o in zip(items, outs):
         if isinstance(o, dict) and "__err__" in o:
             raise InfraError(f"judge failed: {o} on {schema}")
@@ -346,7 +354,7 @@ def judge_batch(chk, drv, items):
             i = next(i for i, (a, b) in enumerate(zip(ref, o)) if a != b)
             raise InfraError(f"Lean validF != jsonschema: schema={json.dumps(schema)} instance={values[i]!r} "
                              f"lean={o[i]} jsonschema={ref[i]}")
-    return outs
+    return outs if descs is None else (outs, described)
 
 
 def _format_in(schema):
@@ -775,7 +783,10 @@ def cover_mechanism(chk, drv, cases, vz, vx):
     reqs = [cover_request(r[0], r[6], r[1], r[2], vz, vx) for r in runs if r[7]]
     models = iter(drv.batch(reqs))
     judge_items = [(r[0], [o["value"] for o in r[3]]) for r in runs if _encodable(r[3])]
-    verdicts = iter(judge_batch(chk, drv, judge_items))
+    judge_descs = [[o["desc"] if o["mode"] == "negative" and (o["loc"] or "").count("/") == 1 and isinstance(r[0], dict) else None
+                    for o in r[3]] for r in runs if _encodable(r[3])]
+    valid_lists, described_lists = judge_batch(chk, drv, judge_items, judge_descs)
+    verdicts, describeds = iter(valid_lists), iter(described_lists)
     pending = []  # violations that need the single-site variants for their signature
     for schema, mk, loc, out, rec, err, orc, modelled, lossy, mech in runs:
         key = [schema, mk, loc]
@@ -806,12 +817,22 @@ def cover_mechanism(chk, drv, cases, vz, vx):
         # ---- replay
         if not _encodable(out):
             continue
-        verdict = next(verdicts)
-        for o, valid in zip(out, verdict):
+        verdict, described = next(verdicts), next(describeds)
+        for o, valid, as_described in zip(out, verdict, described):
             if exempt(o["desc"]):
                 continue
             ok = valid if o["mode"] == "positive" else not valid
             chk.feature(f"{mech}:label:{o['mode']}:{'ok' if ok else 'WRONG'}")
+            if ok and as_described is False:
+                # rejected, but not for the reason the description gives
+                chk.feature(f"{mech}:negative-not-as-described")
+                shape = ("draft4-boolean-exclusive-bound-emitted-as-value" if isinstance(o["value"], bool)
+                         else f"negative-{o['desc']}-not-as-described")
+                chk.violation(f"C03:cover_schema_iter:{shape}",
+                              f"cover_schema_iter describes {o['value']!r} as '{o['text']}' (location {o['loc']}) but the value "
+                              f"does not violate that keyword", {"mechanism": "cover", "schema": schema, "modes": mk,
+                                                                 "location": loc, "value": o["value"], "description": o["text"],
+                                                                 "label": o["mode"], "value_location": o["loc"]})
             if ok:
                 continue
             pending.append((schema, mk, loc, o, orc if modelled else None, rec))
@@ -844,7 +865,8 @@ def resolve_cover_violations(chk, drv, pending):
             if inner in ("minimum-value", "maximum-value", "near-boundary-number") and o["desc"] == inner:
                 sig = number_signature(schema, o, m_rr, m_ar, m_ra)
         if sig is None:
-            sig = f"C03:cover_schema_iter:{shape_of_violation(schema, o, rec)}"
+            shape = shape_of_violation(schema, o, rec)
+            sig = KF_EXCL if shape == "number-exclusive-bound-misread" else f"C03:cover_schema_iter:{shape}"
         what = (f"cover_schema_iter labels {o['value']!r} ('{o['text']}', location {o['loc']}) {o['mode']} but the schema "
                 f"{'rejects' if o['mode'] == 'positive' else 'accepts'} it")
         chk.violation(sig, what, {"mechanism": "cover", "schema": schema, "modes": mk, "location": loc,
@@ -857,6 +879,8 @@ KF_BODY = "C03:_iter_coverage_cases:body-case-labelled-with-first-value-mode"
 KF_TEMPLATE = "C03:_iter_coverage_cases:negative-template-value-in-positive-case"
 KF_OVERWRITE = "C03:Template.with_container:component-label-hides-negative-template-value"
 KF_OMITTED = "C03:_iter_coverage_cases:required-parameter-without-values-omitted-from-positive-case"
+KF_COERCE = "C03:_negative_type:string-coercible-value-for-string-parameter"
+KIND_OF = {"query": "query", "path": "path_parameters", "header": "headers", "cookie": "cookies"}
 
 
 @contextmanager
@@ -924,16 +948,17 @@ def run_cases(ps, body, methods, modes_key):
         try:
             for c in _iter_coverage_cases(op, list(MODES[modes_key])):
                 d = c.meta.phase.data
-                conts = {}
+                conts, vals = {}, {}
                 for kind in ("query", "path_parameters", "headers", "cookies"):
                     v = getattr(c, kind)
                     if v is not None and hasattr(v, "keys"):
                         conts[kind] = sorted(v.keys())
+                        vals[kind] = dict(v)
                 out.append({
                     "method": c.method.upper(), "mode": c.meta.generation.mode.value,
                     "comps": {k.value: v.mode.value for k, v in c.meta.components.items()},
                     "desc": classify_case(d.description), "text": d.description, "parameter": d.parameter,
-                    "parameter_location": d.parameter_location, "containers": conts,
+                    "parameter_location": d.parameter_location, "containers": conts, "values": vals,
                     "has_body": not isinstance(c.body, type(schemathesis.core.NOT_SET)),
                 })
         except Exception as e:  # KeyError is modelled; anything else leaves the modelled fragment
@@ -1042,24 +1067,37 @@ def cases_mechanism(chk, drv, ops, vb):
                 else:
                     sig = "C03:_iter_coverage_cases:negative-case-without-negative-part"
                 chk.violation(sig, f"case '{r['text']}' is labelled {r['mode']} but its components are {r['comps']}",
-                              {"mechanism": "cases", **inp, "case_index": i, "case": {k: v for k, v in r.items()}})
+                              {"mechanism": "cases", **inp, "case_index": i, "case": {k: v for k, v in r.items() if k != "values"}})
             if agree:
                 spec = mc[i].get("spec", {})
                 if spec and not spec.get("comps_ok", True):
                     chk.violation(KF_OVERWRITE if r["mode"] == "positive" or True else "", f"case '{r['text']}': component labels {r['comps']} "
                                   f"disagree with the labels of the values placed in the containers {mc[i]['contents']}",
-                                  {"mechanism": "cases", **inp, "case_index": i, "case": r, "contents": mc[i]["contents"]})
+                                  {"mechanism": "cases", **inp, "case_index": i, "case": {k: v for k, v in r.items() if k != "values"},
+                                   "contents": mc[i]["contents"]})
                 if spec and spec.get("comps_ok", True) and not spec.get("label_ok", True) and ok:
                     chk.violation("C03:_iter_coverage_cases:case-label-differs-from-contents",
                                   f"case '{r['text']}' labelled {r['mode']} but contents are {mc[i]['contents']}",
-                                  {"mechanism": "cases", **inp, "case_index": i, "case": r, "contents": mc[i]["contents"]})
+                                  {"mechanism": "cases", **inp, "case_index": i, "case": {k: v for k, v in r.items() if k != "values"},
+                                   "contents": mc[i]["contents"]})
+            # "Incorrect type" for a string-typed parameter of a string-valued location: what is sent is a string
+            if r["mode"] == "negative" and r["desc"] == "incorrect-type" and r["parameter_location"] in KIND_OF:
+                decl = next((p for p in ps if p[0] == r["parameter_location"] and p[1] == r["parameter"]), None)
+                sent = r["values"].get(KIND_OF[r["parameter_location"]], {}).get(r["parameter"])
+                if decl is not None and isinstance(sent, str) and isinstance(decl[3], dict) and "string" in types_of(decl[3]) \
+                        and py_valid(decl[3], sent) is True:
+                    chk.violation(KF_COERCE, f"case 'Incorrect type' for {r['parameter_location']} parameter '{r['parameter']}' "
+                                  f"(schema {decl[3]}) sends {sent!r}, which the schema accepts",
+                                  {"mechanism": "cases", **inp, "case_index": i, "case": {k: v for k, v in r.items() if k != "values"},
+                                   "sent": sent})
             # a required parameter that never received a value is silently absent from a positive case
             if r["mode"] == "positive":
                 for loc, name, req in run["params"]:
                     kind = {"query": "query", "path": "path_parameters", "header": "headers", "cookie": "cookies"}[loc]
                     if req and name not in r["containers"].get(kind, []) and not r["desc"].startswith("missing:"):
                         chk.violation(KF_OMITTED, f"positive case '{r['text']}' lacks the required {loc} parameter '{name}'",
-                                      {"mechanism": "cases", **inp, "case_index": i, "case": r})
+                                      {"mechanism": "cases", **inp, "case_index": i,
+                                       "case": {k: v for k, v in r.items() if k != "values"}})
 
 
 # ---- run / replay ---------------------------------------------------------------------------------------------------
